@@ -2,7 +2,7 @@ CONSTANTS
   Members = {1,2,3,4,5,6,7,8}
   Period = 100000
   AcceptTimeout = 100000
-  Bind = {"vote", "accepted", "seq", "pubkeys", "bridge"}
+  Bind = {"vote", "accepted", "seq", "epoch", "pubkeys", "bridge"}
 INIT TInit
 NEXT TNext
 INVARIANTS SingleUse WellFormed
